@@ -190,3 +190,31 @@ func contract_FieldRanges_CheckOverlap(p *FieldRanges, q *FieldRanges) (err erro
 	})))
 	return
 }
+
+// ---------------------------------------------------------------- presence discipline of a field (C11)
+
+// specHasPresence: protoreflect.FieldDescriptor.HasPresence - "reports whether the field
+// distinguishes between unpopulated and default values": never for repeated (list/map) fields;
+// otherwise for message and group fields, members of a oneof, and fields with explicit presence
+// (the resolved field_presence feature: proto2 optional/required, proto3 optional, editions
+// EXPLICIT / LEGACY_REQUIRED). A message-typed field here is one of kind message or group.
+func specHasPresence(fd *Field) bool {
+	if fd.L1.Cardinality == protoreflect.Repeated {
+		return false
+	}
+	return fd.L1.EditionFeatures.IsFieldPresence ||
+		fd.L1.Kind == protoreflect.MessageKind || fd.L1.Kind == protoreflect.GroupKind ||
+		fd.L1.ContainingOneof != nil
+}
+
+//@ props C11
+//@ mode int
+//@ inline filedesc.Field.IsExtension
+func contract_Field_HasPresence(fd *Field) (r bool) {
+	requires(fd != nil)
+	// descriptor invariant (established by the builders): the message type is set exactly for
+	// fields of kind message or group
+	domain((fd.L1.Message != nil) == (fd.L1.Kind == protoreflect.MessageKind || fd.L1.Kind == protoreflect.GroupKind))
+	ensures(r == specHasPresence(fd))
+	return
+}
